@@ -7,6 +7,7 @@ REGION = "hippolyzer/lib/proxy/region.py"
 MLOG = "hippolyzer/lib/proxy/message_logger.py"
 WEBAPP = "hippolyzer/lib/proxy/webapp_cap_addon.py"
 STATE = "hippolyzer/lib/client/state.py"
+ADDONS = "hippolyzer/lib/proxy/addons.py"
 
 _FINALLY = ("        finally:\n"
             "            # If someone has taken this request out of the regular callback flow,\n"
@@ -175,6 +176,13 @@ VARIANTS = [
      "edits": [{"file": WEBAPP, "old": "        await asgiapp.serve(app, flow.flow)\n    finally:\n",
                 "new": "        await asyncio.wait_for(asgiapp.serve(app, flow.flow), 30.0)\n    finally:\n"},
                {"file": WEBAPP, "old": "import abc\n", "new": "import abc\nimport asyncio\n"}]},
+    {"name": "R5 addon manager resumes flows a hook left taken", "file": ADDONS, "expect": "C15.R5",
+     "old": "            return cls._call_all_addon_hooks(\"handle_http_request\", cls.SESSION_MANAGER, flow)\n",
+     "new": "            handled = cls._call_all_addon_hooks(\"handle_http_request\", cls.SESSION_MANAGER, flow)\n"
+            "            if flow.taken and not flow.resumed and not handled:\n                flow.resume()\n"
+            "            return handled\n"},
+    {"name": "P R5 taken flow handed to the serving coroutine by keyword", "file": WEBAPP, "expect": "silent",
+     "old": "self._schedule_task(serve(self.APP, flow.take()))", "new": "self._schedule_task(serve(self.APP, flow=flow.take()))"},
     {"name": "R4 default request handling replaces an injected response again (af3a688 reverted)", "file": EVM, "expect": "C15.R4",
      "old": '        if flow.response_injected:\n            # An addon already answered this request itself, the default handling\n            # below must not replace its response.\n            pass\n        elif cap_data and cap_data.cap_name.endswith("ProxyWrapper"):\n', "new": "        if cap_data and cap_data.cap_name.endswith(\"ProxyWrapper\"):\n"},
     {"name": "P R4 injected-response test as an early return", "file": EVM, "expect": "silent",
